@@ -10,6 +10,7 @@ the raw coordinate list.  The trees are built through several public constructor
 histories runs while a metrics-collection session is active: neither may change any answer.
 """
 import bisect
+import itertools
 import random
 
 from fibertree import Fiber, Metrics, Payload, Tensor
@@ -19,20 +20,23 @@ from fvmon import gen
 from fvmon.observe import content, snap, unbox, RC, WF
 
 SPEC = {
-    "anchors": ["fibertree.core.fiber:Fiber.getPayload", "fibertree.core.fiber:Fiber.getPayloadRef", "fibertree.core.fiber:Fiber.getPosition", "fibertree.core.fiber:Fiber.getPositionRef", "fibertree.core.fiber:Fiber._coordExists", "fibertree.core.fiber:Fiber._createDefault", "fibertree.core.fiber:Fiber._instantiateDefault", "fibertree.core.payload:Payload.__iadd__", "fibertree.core.payload:Payload.__ilshift__", "fibertree.core.tensor:Tensor.getPayload", "fibertree.core.tensor:Tensor.getPayloadRef", "fibertree.core.fiber:Fiber.__getitem__", "fibertree.core.fiber:Fiber.__setitem__", "fibertree.core.coord_payload:CoordPayload.__ilshift__", "fibertree.core.coord_payload:CoordPayload.__iadd__"],
+    "anchors": ["fibertree.core.fiber:Fiber.getPayload", "fibertree.core.fiber:Fiber.getPayloadRef", "fibertree.core.fiber:Fiber.getPosition", "fibertree.core.fiber:Fiber.getPositionRef", "fibertree.core.fiber:Fiber._coordExists", "fibertree.core.fiber:Fiber._createDefault", "fibertree.core.fiber:Fiber._instantiateDefault", "fibertree.core.payload:Payload.__iadd__", "fibertree.core.payload:Payload.__ilshift__", "fibertree.core.tensor:Tensor.getPayload", "fibertree.core.tensor:Tensor.getPayloadRef", "fibertree.core.fiber:Fiber.__getitem__", "fibertree.core.fiber:Fiber.__setitem__", "fibertree.core.coord_payload:CoordPayload.__ilshift__", "fibertree.core.coord_payload:CoordPayload.__iadd__", "fibertree.core.fiber:Fiber.__imul__", "fibertree.core.fiber:Fiber.__iadd__"],
     "rule": ("case = tensor of depth 0-3 (or a free depth-1 / depth-2 fiber), canonical or holding explicit defaults / empty "
              "sub-fibers, default 0, 7, 0.5 or 2.5, leaf fibers built through one of the public constructor forms "
              "{coordinates + payloads, list of (coordinate, payload) pairs, coordinates only + one `initial` value for "
              "all elements}, + a history of 10-30 (quick) / 10-100 (thorough) accesses over {getPayload "
              "(full / partial point, allocate on/off, caller default), getPayloadRef (full / partial) followed by "
-             "<<= / += / *= / -= (right-hand side a scalar or a boxed value) through the handle or nothing, writes "
+             "<<= / += / *= / -= (right-hand side a scalar or a boxed value) through the handle or nothing; at a partial "
+             "point (any prefix, half of the time a prefix of a point whose handle is still held) followed by *= / += "
+             "with a scalar or boxed right-hand side through the sub-fiber handle or nothing; writes "
              "through handles obtained earlier, sub-fiber assignment at a prefix, getPosition, getPositionRef, f[pos], "
              "writes through position handles (pos from getPosition / getPositionRef / a raw, possibly negative index; "
              "h = f[pos]; h OP= rhs, or the statement form f[pos] OP= rhs; rhs a scalar, a boxed value, or an element "
              "of the same fiber / another leaf fiber of the tree / a separate fiber; optionally followed by an in-place "
              "update at the source or the target point, which must leave the other one alone), every legal start_pos "
              "(plain or boxed) for one-coordinate accesses}, through Tensor.* and Fiber.* entry points.  The separate "
-             "source fiber has its own map and is compared after every step.  In 40% of the cases a window of the "
+             "source fiber has its own map and is compared after every step.  After every step every handle obtained "
+             "earlier (and not detached by a sub-fiber assignment above it) must show the value the map holds at its point.  In 40% of the cases a window of the "
              "history (half of them: all of it) runs while a metrics-collection session is active (Metrics.beginCollect, "
              "the ranks of the trees registered); every answer must be the same as outside a session (verdict keys of "
              "those steps carry the suffix :metrics-session).  Non-trivial = at least one "
@@ -45,6 +49,8 @@ SPEC = {
                              "handle_rhs_payload": 300, "handle_rhs_element_same": 150, "handle_rhs_element_tree": 120,
                              "handle_rhs_element_ext": 300, "handle_independence_checked": 300,
                              "built_payloads": 400, "built_pairs": 150, "built_initial": 300,
+                             "partial_updates": 300, "partial_mul": 150, "partial_add": 40, "partial_update_above_held_handle": 80,
+                             "held_handles_checked": 15000,
                              "metrics_session_steps": 4000, "metrics_session_writes": 1000, "metrics_session_stale_writes": 80}},
     "assumptions": [
         "legal start_pos: None, or p with 0 <= p < len(coords) and coords[p] <= coord; single-coordinate accesses only (as the API asserts)",
@@ -53,6 +59,8 @@ SPEC = {
         "position handles are taken at the leaf level (the payload of an interior element is a sub-fiber; sub-fiber assignment is exercised by the prefix assignment)",
         "metrics collection is an ambient mode the statement does not mention, so point access must answer the same inside a session; the driver registers the rank names of the trees (Metrics.registerRank, as a loop nest does) because a reference taken during a session reports its use under the rank name and Metrics.addUse asserts that name is known; no traces are requested and the collected counts are not compared",
         "the `initial` constructor form gives every element the same value, so those leaf fibers start uniform (possibly all explicit defaults); interior fibers are always built from coordinates + sub-fibers (one `initial` sub-fiber object replicated over several coordinates would be one shared sub-tree by construction)",
+        "in-place arithmetic at a partial point uses the two operators a fiber defines for a scalar (plain or boxed) right-hand side, with their documented meaning: `sub *= s` scales every non-empty element under the prefix (the library iterates 'over non-default elements', so a point holding the default - stored or absent - keeps it; identical to scaling everything when the default is 0); `sub += s` adds s at every coordinate of the shape under the prefix, absent ones 'treated as zero', and is therefore issued only on tensors with a declared shape and default 0 (with another default or an estimated shape the documentation does not fix the result)",
+        "a handle stays an alias as long as its point is not replaced wholesale: handles under a prefix are dropped from the held set when a sub-fiber is assigned at that prefix",
         "free (unowned) fibers at depth 1, and at depth 2 only as canonical trees with a non-empty root (an unowned empty interior fiber cannot know its payload type)",
     ],
 }
@@ -412,13 +420,52 @@ def _run_case(case, mon):
                 if depth < 2:
                     continue
                 pre = pt[:op["cut"]]
+                full = [hp for hp, _ in held if len(hp) == depth]
+                if full and op["r"] % 2 == 0:
+                    # a prefix of a point at which a handle obtained earlier is still held
+                    pre = full[(op["r"] >> 1) % len(full)][:op["cut"]]
                 sub = entry(op).getPayloadRef(*pre)
                 mon.count("refs_checked")
                 stored = _raw_lookup(root, pre)
-                mon.check(isinstance(sub, Fiber) and sub is stored, "ref:partial:not-aliasing", f"getPayloadRef{pre} is not the stored sub-fiber")
+                if not mon.check(isinstance(sub, Fiber) and sub is stored, "ref:partial:not-aliasing", f"getPayloadRef{pre} is not the stored sub-fiber"):
+                    return
                 if t is not None:
                     pr = RC(t)
                     mon.check(not pr, "ref:partial:rank-lists", f"after getPayloadRef{pre}: {pr}")
+                if not compare("ref_partial:create"):
+                    return
+                # in-place arithmetic through the handle at the partial point: the two operators a fiber defines
+                # for a scalar (plain or boxed) right-hand side.  `sub *= s` scales every non-empty element (value other
+                # than the default) under the prefix; `sub += s` adds s at every coordinate of the declared shape under the prefix
+                # (absent ones counting as zero).  The expected values come from the map.
+                pact = {"mul": "mul", "sub": "add", "add": "add", "default": "add"}.get(op["act"])
+                if pact == "add" and not (t is not None and init["shape"] and d == 0):
+                    pact = "mul"
+                if pact is not None:
+                    v = op["v"]
+                    rhs = Payload(v) if op["rhs"] == "payload" else v
+                    if pact == "mul":
+                        upd = {p_: val * v for p_, val in model.items() if p_[:len(pre)] == pre}
+                        sub *= rhs
+                    else:
+                        box = [range(n) for n in init["shape"][len(pre):]]
+                        upd = {pre + q: model.get(pre + q, d) + v for q in itertools.product(*box)}
+                        sub += rhs
+                    for p_, val in upd.items():
+                        if val != d:
+                            model[p_] = val
+                        else:
+                            model.pop(p_, None)
+                    wrote.update(upd)
+                    label = f"ref_partial:{pact}"
+                    mon.count("partial_updates")
+                    mon.count(f"partial_{pact}")
+                    if any(hp[:len(pre)] == pre for hp, _ in held):
+                        mon.count("partial_update_above_held_handle")
+                    if mon.tag:
+                        mon.count("metrics_session_writes")
+                    mon.check(_raw_lookup(root, pre) is sub, "ref:partial:update-replaced-sub-fiber",
+                              f"after {pact} through the handle at the prefix {pre} the stored sub-fiber is another object")
             elif k == "stale":
                 if not held:
                     continue
@@ -697,6 +744,13 @@ def _run_case(case, mon):
             return          # later states are tainted
         probs = WF(subject)
         mon.check(not probs, f"wf:after:{k}", f"tree not well-formed after {k}: {probs[:2]}")
+        # every handle obtained earlier still aliases the stored payload: it shows the value the map holds now
+        for hp, ref in held:
+            mon.count("held_handles_checked")
+            hv = unbox(ref.payload if isinstance(ref, CoordPayload) else ref)
+            if not mon.check(hv == model.get(hp, d), f"ref:held:value-diverged-after:{label.split(':then-')[0] if k == 'ref_partial' else k}",
+                             f"after {label}: the handle obtained earlier at {hp} shows {hv!r}, the point holds {model.get(hp, d)!r}"):
+                return
     if wrote and read_written:
         mon.nontrivial()
     mon.state((depth, d, tuple(sorted({o['op'] for o in case['ops']}))))
